@@ -1,7 +1,7 @@
 (* C09 -- Epoch -> Gregorian fields exactly inverts construction.
-   Display/accessor clauses (the text form) are covered with C10/C19; this file holds the field-level theorems. *)
+   The default text form is proved to print exactly those fields; the other renderings are covered with C10/C19. *)
 From Coq Require Import ZArith Bool List.
-From HF Require Import MachInt GenConsts Duration Epoch Gregorian SignedNs Civil LeapSpec DurationP CivilP EpochP GregorianP.
+From HF Require Import MachInt GenConsts Text Duration Epoch Gregorian SignedNs Civil LeapSpec TextFmt TextSpec DurationP CivilP EpochP GregorianP TextP.
 Open Scope Z_scope.
 
 Local Notation D := 86400000000000 (only parsing).
@@ -35,6 +35,13 @@ Theorem C09_inverse : forall y m d h mi s ns t,
             val x = civil_ns y m d h mi s ns - spec_gregorian_zero (ts_id t) /\
             compute_gregorian x t = (y, m, d, h, mi, s, ns).
 Proof. exact greg_inverse. Qed.
+
+(* the default text form: exactly those fields as YYYY-MM-DDTHH:MM:SS, nine fractional digits only when non-zero, then the scale name *)
+Theorem C09_display_text : forall d t, canon d ->
+  let w := val d + spec_gregorian_zero (ts_id t) in MINV <= w <= MAXV ->
+  display_epoch (mkE d t) =
+    (let '(y, m, dd) := civil_of_days (w / D) in let '(h, mi, s, ns) := tod_fields (w mod D) in spec_epoch_text y m dd h mi s ns t).
+Proof. exact display_epoch_text. Qed.
 
 Example C09_nonvacuous :
   compute_gregorian (mkD (-1) 2934921600000000000) TAI = (1893, 1, 1, 0, 0, 0, 0) /\
